@@ -773,6 +773,8 @@ def search_C19(tier, rng):
                 'append': msg('StoryAppend', mid=2, new=['N'])[0], 'move': msg('EAStoryMove', mid=3, target='A', ids=['C'])[0],
                 'bad': msg('StoryReplace', mid=4, target='ZZ', new=['Q'])[0], 'roreplace': msg('RunningOrderReplace', mid=5, new=['A', 'B'])[0].replace('><', '>\n <'),
                 'end': msg('RunningOrderEnd', mid=9)[0], 'send': msg('StorySend', mid=6, target='A')[0], 'swap': msg('EAItemSwap', mid=7, story='A', ids=['1', '2'])[0]}
+        # a roReplace written without white space between the tags and with an empty optional element: children without text
+        docs['roreplace_compact'] = msg('RunningOrderReplace', mid=10, new=['A', 'B'])[0].replace('</roID>', '</roID><roTrigger/>', 1)
         docs['append_cr'] = msg('StoryAppend', mid=8, new=['CR'])[0].replace('slug CR', 'line one&#13;&#10;line two&#13;')
         for k, d in docs.items():
             files[k] = os.path.join(tmp, k + '.mos.xml')
